@@ -470,6 +470,44 @@ pub fn load_findings() -> Vec<Finding> {
 // replay files
 // ------------------------------------------------------------------------------------------
 
+/// Last resort for a violation that reproduces neither in isolation nor with its history: the verdict depends on
+/// something the simulator does not own (real threads inside the code under test are the usual reason). The case is
+/// executed again and again on all worker threads at once - the contention is part of the point - until the same
+/// violation class shows again or the bounds are exhausted. Returns (executions until the hit, the violating report).
+pub fn stress_reproduce<P: Property>(p: &P, case: &P::Case, class: &str, max_execs: u64, max_secs: f64) -> Option<(u64, Report)> {
+    use std::sync::atomic::{AtomicBool, AtomicU64, Ordering};
+    let found = AtomicBool::new(false);
+    let execs = AtomicU64::new(0);
+    let hit: Mutex<Option<(u64, Report)>> = Mutex::new(None);
+    let t0 = Instant::now();
+    let nw = workers().max(2);
+    std::thread::scope(|sc| {
+        for _ in 0..nw {
+            sc.spawn(|| {
+                while !found.load(Ordering::Relaxed) {
+                    let k = execs.fetch_add(1, Ordering::Relaxed) + 1;
+                    if k > max_execs || t0.elapsed().as_secs_f64() > max_secs {
+                        break;
+                    }
+                    let r = p.run(case);
+                    if r.violation.as_ref().map(|v| v.class == class).unwrap_or(false) {
+                        found.store(true, Ordering::Relaxed);
+                        let mut h = hit.lock().unwrap();
+                        if h.is_none() {
+                            *h = Some((k, r));
+                        }
+                        break;
+                    }
+                }
+            });
+        }
+    });
+    hit.into_inner().unwrap()
+}
+
+const STRESS_EXECS: u64 = 400_000;
+const STRESS_SECS: f64 = 90.0;
+
 pub fn replay_case<P: Property>(p: &P, path: &Path) -> i32 {
     let s = match std::fs::read_to_string(path) {
         Ok(s) => s,
@@ -493,6 +531,22 @@ pub fn replay_case<P: Property>(p: &P, path: &Path) -> i32 {
         }
     };
     let flaky = v.get("flaky").and_then(|x| x.as_bool()).unwrap_or(false);
+    if v.get("stress").and_then(|x| x.as_bool()).unwrap_or(false) {
+        let class = v["class"].as_str().unwrap_or("").to_string();
+        println!("  (violation outside the simulator's control: the recorded case is executed repeatedly on all worker threads, at most {} times / {} s)", STRESS_EXECS, STRESS_SECS);
+        return match stress_reproduce(p, &case, &class, STRESS_EXECS, STRESS_SECS) {
+            Some((k, rep)) => {
+                let vi = rep.violation.as_ref().unwrap();
+                println!("REPLAY property={} class={} cause={} digest={:016x}", p.id(), vi.class, vi.cause, rep.log_digest);
+                println!("  detail (execution {}): {}", k, vi.detail);
+                1
+            }
+            None => {
+                println!("REPLAY property={} class=none digest={:016x}", p.id(), 0u64);
+                0
+            }
+        };
+    }
     let history: Vec<P::Case> = match v.get("history") {
         Some(h) if !h.is_null() => match serde_json::from_value(h.clone()) {
             Ok(x) => x,
@@ -1006,11 +1060,60 @@ pub fn check<P: Property>(p: &P, tier: Tier) -> i32 {
             let tries = if flaky { 6 } else { 1 };
             let reproduces = |h: &[P::Case]| (0..tries).any(|_| same(&run_with_history(p, h, &case)));
             if hist.is_empty() || !reproduces(&hist) {
-                harness_error = Some(format!(
-                    "violation {}/{} of run {}#{} reproduces neither in isolation nor with its chunk history ({} runs): {:?}",
-                    class, cause, bname, idx, hist.len(), rep0.violation
-                ));
-                continue;
+                // neither: the verdict depends on something the simulator does not own (threads inside the code under
+                // test, typically). Stress the recorded case; a hit is reported with a replay file that says so.
+                match stress_reproduce(p, &case, class, STRESS_EXECS, STRESS_SECS) {
+                    None => {
+                        harness_error = Some(format!(
+                            "violation {}/{} of run {}#{} reproduces neither in isolation, nor with its chunk history ({} runs), nor in {} stressed executions: {:?}",
+                            class, cause, bname, idx, hist.len(), STRESS_EXECS, v0.detail
+                        ));
+                        continue;
+                    }
+                    Some((k, srep)) => {
+                        let dir = verif_root().join("replays");
+                        let _ = std::fs::create_dir_all(&dir);
+                        let path = dir.join(format!("{}-{}-{}-{}-{}-stress.json", p.id(), sanitize(class), sanitize(cause), seed, idx));
+                        let file = json!({
+                            "property": p.id(), "class": class, "cause": cause, "flaky": true, "stress": true,
+                            "detail": srep.violation.as_ref().map(|v| v.detail.clone()).unwrap_or_default(),
+                            "first_detail": v0.detail, "seed": seed, "batch": bname, "index": idx,
+                            "runs_with_this_violation": list.len(),
+                            "stress_note": "this violation reproduces neither in isolation nor with the runs that preceded it on its thread: the verdict depends on a source of nondeterminism the simulator does not own (real threads inside the code under test are the usual reason). The recorded case was executed repeatedly on all worker threads until the same violation class showed again; replay does the same and is therefore probabilistic. The case is not minimised.",
+                            "stress_executions_until_reproduced": k,
+                            "case": serde_json::to_value(&case).unwrap(),
+                            "how_to_replay": format!("cd /verif && ./check replay {} <this file>", p.id()),
+                        });
+                        if std::fs::write(&path, serde_json::to_string_pretty(&file).unwrap()).is_err() {
+                            harness_error = Some("cannot write replay file".into());
+                            continue;
+                        }
+                        let exe = std::env::current_exe().expect("current_exe");
+                        let mut ok = false;
+                        for _ in 0..2 {
+                            if let Ok(o) = std::process::Command::new(&exe).args(["replay", p.id(), path.to_str().unwrap()]).output() {
+                                let so = String::from_utf8_lossy(&o.stdout).to_string();
+                                if so.lines().any(|l| l.starts_with("REPLAY") && l.contains(&format!("class={} ", class))) {
+                                    ok = true;
+                                    break;
+                                }
+                            }
+                        }
+                        if !ok {
+                            harness_error = Some(format!("unstable replay: {} (stressed) did not reproduce {} in a fresh process", path.display(), class));
+                            continue;
+                        }
+                        println!(
+                            "  violation class={} cause={} runs={} first={}#{} (outside the simulator's control: reproduced after {} stressed executions, replay is probabilistic) detail: {}",
+                            class, cause, list.len(), bname, idx, k,
+                            srep.violation.as_ref().map(|v| v.detail.as_str()).unwrap_or("")
+                        );
+                        println!("VIOLATION property={} replay={}", p.id(), path.display());
+                        violation_records.push(json!({"class": class, "cause": cause, "runs": list.len(), "replay": path.to_str(), "stress": true}));
+                        exit = 1;
+                        continue;
+                    }
+                }
             }
             // minimise the history: drop halves, then single runs, while the violation persists
             let mut attempts = 0u64;
